@@ -171,7 +171,10 @@ namespace bloch::compiler {
             for (const auto& entry : fs::directory_iterator(candidate, ec)) {
                 if (ec)
                     break;
-                if (!entry.is_regular_file(ec))
+                // its own error code: an entry that cannot be examined (a dangling symlink) is
+                // skipped, it must not end the listing
+                std::error_code entryEc;
+                if (!entry.is_regular_file(entryEc) || entryEc)
                     continue;
                 fs::path p = entry.path();
                 if (p.extension() == ".bloch")
